@@ -275,6 +275,7 @@ def run(out, tier):
 
     conflict_table = conflict_cost(out, h, tier) if inproc else []
     cli = cli_tie(out, tier, findings)
+    prop = propagation_cost(out, tier)
     table = []
     for i, (fam, name, g, top, bottom) in enumerate(rows):
         if fam in ("ladder2", "chain") and impl[i]:
@@ -296,6 +297,7 @@ def run(out, tier):
         "inprocess_tie": inproc,
         "conflict_detection_counts": conflict_table,
         "cli_tie": cli,
+        "failure_propagation": prop,
     })
     out.assumptions += [
         "calls are counted exactly: len(GetAncestors(n))+1, len(GetDescendants(n))+1, and Select() invocations on counting BuildNodes for "
@@ -389,6 +391,49 @@ def cli_tie(out, tier, findings):
                     {"graph_name": "ladder(%d,%d)" % (w, d), "graph": sl.graphspec(g), "cmd": "grog " + cmd, "lines": n, "distinct": ws_,
                      "paths": wp})
     return {"available": True, "runs": res}
+
+
+def propagation_cost(out, tier):
+    """Failure propagation in the walker (dag/graph_walker.go onComplete, under the completion mutex): the bottom target of a
+    deep ladder fails; its dependants are (a) not selected (`grog build //:n0`), (b) all selected (`grog build //...`),
+    (c) half selected (`grog build //:n<mid>`).  The build must end (with the failure) about as fast as on a chain of the same
+    size: a traversal that enumerates dependency paths needs w^d steps (3^22, 2^40) and does not end."""
+    try:
+        grog = vlib.build_grog()
+    except vlib.HarnessUnavailable as e:
+        out.notes.append("propagation_cost: unavailable (%s)" % str(e)[-300:])
+        return {"available": False}
+    LIMIT = 25.0
+    res = []
+    shapes = [("ladder", 3, 22), ("ladder", 2, 40)] + ([("ladder", 3, 40), ("ladder", 4, 30)] if tier != "quick" else [])
+    for fam, w, d in shapes:
+        g = sl.ladder(w, d)
+        V = len(g)
+        for gname, gg in (("%s(%d,%d)" % (fam, w, d), g), ("chain(%d)" % V, sl.chain(V))):
+            ws = os.path.join(vlib.scratch(), "c19prop_%s" % gname.replace("(", "_").replace(")", "").replace(",", "_"))
+            os.makedirs(ws, exist_ok=True)
+            targets = [{"name": "n%d" % i, "command": "exit 1" if i == 0 else "true", "dependencies": ["//:n%d" % j for j in ds]}
+                       for i, ds in enumerate(gg)]
+            with open(os.path.join(ws, "BUILD.json"), "w") as f:
+                json.dump({"targets": targets}, f)
+            open(os.path.join(ws, "grog.toml"), "w").write("")
+            for sel, what in (("//:n0", "dependants not selected"), ("//...", "all dependants selected"), ("//:n%d" % (V // 2), "lower half selected")):
+                env = sl.grog_env(os.path.join(vlib.scratch(), "c19proproot"))
+                t = time.time()
+                try:
+                    p = subprocess.run([grog, "build", sel], cwd=ws, env=env, stdout=subprocess.PIPE, stderr=subprocess.PIPE, timeout=LIMIT, text=True)
+                    rc, dt = p.returncode, time.time() - t
+                except subprocess.TimeoutExpired:
+                    rc, dt = "timeout", LIMIT
+                res.append({"graph": gname, "V": V, "E": sum(len(x) for x in gg), "selection": sel, "rc": rc, "seconds": round(dt, 2)})
+                if rc == "timeout":
+                    out.violation("`grog build %s` on %s (%d targets, the bottom target fails, %s) did not end within %.0f s: failure propagation "
+                                  "is not polynomial in the number of targets and edges" % (sel, gname, V, what, LIMIT),
+                                  {"graph_name": gname, "graph": sl.graphspec(gg), "cmd": "grog build " + sel, "failing_target": "//:n0", "limit_s": LIMIT})
+                elif rc == 0:
+                    out.violation("`grog build %s` on %s succeeded although //:n0 fails" % (sel, gname),
+                                  {"graph_name": gname, "graph": sl.graphspec(gg), "cmd": "grog build " + sel}, no_input=True)
+    return {"available": True, "limit_s": LIMIT, "runs": res}
 
 
 def replay(out, path):
